@@ -71,6 +71,9 @@ func generate(t *tape.Tape, hook revHook, skip func(string)) (img []byte, sigPar
 		}
 	}
 	f := revwriter.NewFile(junk, version, style)
+	if t.Bool("reserve", 1, 3) {
+		f.Reserve(tape.Pick(t, "reserve.n", 300, 700, 2500))
+	}
 	nObj := 1 + t.Draw("nobj", 6)
 	nRev = 1 + t.Draw("nrev", 4)
 	model := map[uint32]*slot{}
@@ -140,7 +143,8 @@ func generate(t *tape.Tape, hook revHook, skip func(string)) (img []byte, sigPar
 					switch st.Mode {
 					case revwriter.LenIndirect:
 						st.LenRef = pdf.NewReference(aux, 0)
-						pendingAux = append(pendingAux, revwriter.Def{Ref: st.LenRef, Value: pdf.Integer(len(st.Data))})
+						// the length may itself live in the revision's object stream
+						pendingAux = append(pendingAux, revwriter.Def{Ref: st.LenRef, Value: pdf.Integer(len(st.Data)), InObjStm: t.Bool(l+".lenobjstm", 1, 2)})
 						aux++
 					case revwriter.LenWrong:
 						st.WrongBy = tape.Pick(t, l+".wrongby", 1, -1, 2, 7, -5, 100, 1000, -100)
@@ -215,6 +219,13 @@ func generate(t *tape.Tape, hook revHook, skip func(string)) (img []byte, sigPar
 			return nil, sigParts, len(junk), nRev, lastKind, false
 		}
 		img = f.Bytes()
+		if t.Bool(rl+".front", 1, 2) {
+			// newest section in front of everything else, /Prev pointing forward
+			if fi, ok := f.FrontImage(); ok {
+				img = fi
+				sigParts = append(sigParts, "front")
+			}
+		}
 		checkNow := ri == nRev-1 || t.Bool(rl+".checknow", 2, 3)
 		if hook != nil && checkNow {
 			if !hook(img, model, uint32(nObj), custom, id, ri, version, ri == nRev-1, sigParts) {
